@@ -217,6 +217,13 @@ class CallMixin:
     def instantiate(self, ci, args, kwargs, node):
         if self.is_exception_class(ci):
             return self.instantiate_exc(ci, args, kwargs, node)
+        if self.is_enum(ci) and len(args) == 1 and not kwargs:
+            # Enum lookup by value
+            for m in self.enum_members(ci):
+                if self.equal(self.resolve(args[0]), m.fields['value'], node):
+                    return m
+            import builtins
+            raise Raised(ExcV(builtins.ValueError, [], node=node, stack=self.stack, op=f'{ci.name}(value): no such member', definite=True))
         nt_base = any(getattr(c, 'namedtuple_base', False) for c in ci.mro if not isinstance(c, str))
         record_like = any(d.split('(')[0].endswith('dataclass') for d in ci.decorators) or nt_base or \
             any(isinstance(b, str) and b.endswith('NamedTuple') for b in ci.mro)
@@ -474,7 +481,13 @@ def b_int(it, args, kwargs, node):
             it.may_raise(ValueError, node, f'int({_short(v)}, {base})', wire=wire)
         else:
             it.op_safe(node, 'int', why)
+        memo = it.__dict__.setdefault('_pure_memo', {})
+        mk = ('int', _seq_key(it, v), base)
+        if mk in memo:
+            # the same text parsed again gives the same number
+            return IntV(Lin.sym(memo[mk]), tags | ({'wire-int'} if wire else set()))
         s = it.fresh('t')
+        memo[mk] = s
         lo = hi = None
         if ln.is_const() and ln.c >= 1 and ln.c <= 64:
             hi = base ** ln.c - 1
@@ -661,9 +674,9 @@ def b_range(it, args, kwargs, node):
         vals = list(range(lo.c, hi.c, st.c))
         if len(vals) <= 8:
             return ListV(items=[IntV(x) for x in vals])
-    if st.is_const() and st.c > 1:
+    if st.is_const() and (st.c > 1 or st.c < 0):
         return RangeV(ls[0], ls[1], st.c)
-    it.note_unknown(node, 'range() with a negative or symbolic step')
+    it.note_unknown(node, 'range() with a symbolic step')
     return IterV(it.sym_int('i'), desc='range-step')
 
 
@@ -1031,8 +1044,39 @@ def b_iter(it, args, kwargs, node):
     return args[0]
 
 
+def _next_of_generator(it, g, args, node):
+    """next(<generator>[, default]): run the generator up to its first yield (the consumer takes the value and stops)"""
+    cache = node.__dict__.setdefault('_next_for', None) if node is not None else None
+    var = f'__nextval_{getattr(node, "lineno", 0)}_{getattr(node, "col_offset", 0)}'
+    if cache is None:
+        loop = ast.For(target=ast.Name(id=var, ctx=ast.Store()), iter=ast.Name(id='__gen', ctx=ast.Load()),
+                       body=[ast.Assign(targets=[ast.Name(id=var + '_found', ctx=ast.Store())], value=ast.Constant(value=True)),
+                             ast.Break()], orelse=[])
+        if node is not None:
+            ast.copy_location(loop, node)
+            ast.fix_missing_locations(loop)
+            node._next_for = loop
+            fi = it.prog.node_owner.get(id(node))
+            if fi is not None:
+                for n in ast.walk(loop):
+                    it.prog.node_owner.setdefault(id(n), fi)
+        cache = loop
+    fr = it.frames[-1]
+    fr.locals[var + '_found'] = ConstV(False)
+    it._for_generator(cache, g)
+    found = fr.locals.pop(var + '_found', ConstV(False))
+    val = fr.locals.pop(var, ConstV(None))
+    if it.truth(found):
+        return val
+    if len(args) > 1:
+        return args[1]
+    raise Raised(ExcV(StopIteration, [], node=node, stack=it.stack, op='next() of an exhausted generator', definite=True))
+
+
 def b_next(it, args, kwargs, node):
     v = it.resolve(args[0])
+    if isinstance(v, GenCallV) and not v.started:
+        return _next_of_generator(it, v, args, node)
     if isinstance(v, ObjV):
         r = v.cls.lookup('__next__')
         if r and r[0] == 'method':
